@@ -70,7 +70,7 @@ fn main() {
     }
     match args[1].as_str() {
         "replica" => {
-            std::process::exit(sc_replicas::replica_child_main(args.get(2).map(|s| s.as_str()).unwrap_or("")));
+            std::process::exit(sc_replicas::replica_child_main(args.get(2).map(|s| s.as_str()).unwrap_or(""), args.get(3).and_then(|s| s.parse().ok()).unwrap_or(0)));
         }
         "paramchild" => {
             std::process::exit(sc_paramfile::child_main(&args[2..]));
